@@ -50,7 +50,12 @@ RULE = (
     "record it EVER yields must satisfy a fresh selector (later-iteration yields are counted).  Equal-but-different constructor "
     "arguments (1 / True / 1.0, 0 / False / 0.0 / -0.0 in varint / boolean / float fields of different record types, and as "
     "literals): whitelisted constructors over them in sources of both orders, and in the fresh-process comparison, where the "
-    "selectors themselves are also evaluated in a different order (S1 then S2 vs S2 then S1).  A filter case is non-trivial when the source "
+    "selectors themselves are also evaluated in a different order (S1 then S2 vs S2 then S1).  Literal boundaries: selector "
+    "TEXTS whose string / bytes literals hold runs of blanks, TAB, NBSP, IDEOGRAPHIC SPACE, newlines (raw, in triple quotes, and "
+    "escaped as control), leading / trailing blanks, over records holding exactly those values and near-misses, every "
+    "adapter, text form vs Selector / CompiledSelector objects vs fresh Selector(text).  Records with record[] nesting of depth "
+    ">= 2 (host -> procs -> children, also inside a grouped record) under Type.<t> selectors: observation before == after "
+    "every match, both engines, repeated matches, through stream / JSON readers.  A filter case is non-trivial when the source "
     "holds >= 2 records; it is *discriminating* when the selector keeps some but not all records (counted per adapter, "
     "required > 0); distinct = distinct (adapter, sequence seed, expression, form)."
 )
@@ -253,7 +258,64 @@ def build_pool(rng):
     (lacking k / l, having them, lacking them)."""
     pool = selgen.record_pool(rng, grouped=True) + flat_records(rng, 3)
     g = group_records(rng)
-    return pool + [g["L"][0], g["H"][0], g["L"][1]] + eqval_records()
+    return pool + [g["L"][0], g["H"][0], g["L"][1]] + eqval_records() + deepnest_records(rng) + ws_records()[:6]
+
+
+# ---- white space at the boundary of string / bytes literals of a selector TEXT --------------------------------------
+NBSP, IDSP = "\u00a0", "\u3000"
+WS_VALUES = ["disk  full", "disk full", "disk\tfull", "disk" + NBSP + "full", "disk" + IDSP + "full", " lead", "lead", "trail ", "trail", "a\nb", "a b",
+             "a   b", "x\t\ty", "x y", "", "two\n\nlines", "tab\t", "\u2003em", "\x0bvt", "\rcr"]
+
+
+def ws_records():
+    from flow.record import RecordDescriptor
+
+    D = RecordDescriptor("c10/ws", [("string", "msg"), ("bytes", "by"), ("varint", "n")])
+    return [D(msg=v, by=v.encode("utf-8"), n=i) for i, v in enumerate(WS_VALUES)]
+
+
+def _q(v):
+    """A string literal that contains the characters of v RAW (no escapes) - what a selector typed on a command line holds."""
+    if "\n" in v or "\r" in v:
+        return '"""' + v + '"""'
+    return "'" + v + "'"
+
+
+# the text contains the blanks / TAB / NBSP / IDEOGRAPHIC SPACE / newline raw, inside the literal (and escaped, as a control)
+WS_EXPR = (["r.msg == " + _q(v) for v in WS_VALUES if v and "\r" not in v] +
+           ["r.msg == " + repr(v) for v in ("disk\tfull", "a\nb", "disk\u00a0full", "disk  full")] +
+           [_q("  ") + " in r.msg", _q("\t") + " in r.msg", _q(NBSP) + " in r.msg", _q(IDSP) + " in r.msg", _q("\n") + " in r.msg",
+            "r.msg in [" + _q("disk  full") + ", " + _q(" lead") + ", " + _q("trail ") + "]", "lower(r.msg) == " + _q("disk  full"),
+            "field_contains(r, ['msg'], [" + _q("k  f") + "])", "field_equals(r, ['msg'], [" + _q("disk\tfull") + "])",
+            "r.by == b'disk  full'", "r.by == b'disk\tfull'", "b' ' + b' ' in r.by", "r.msg  ==  'disk full'", "r.msg\t==\t'disk full'",
+            "r.msg ==\n'disk full'", "  r.msg == 'disk full'  ", "any(c == " + _q("\t") + " for c in r.msg)", "r.msg != " + _q("disk" + NBSP + "full"),
+            "Type.string == " + _q("x\t\ty"), "field_regex(r, ['msg'], " + _q("k  +f") + ")", "r.msg == f" + _q("disk  full")])
+
+
+# ---- record[] nesting of depth >= 2 ----------------------------------------------------------------------------------
+def deepnest_records(rng):
+    """host -> procs (record[]) -> children (record[]) [-> leaves]: no populated single `record` field on the way."""
+    from flow.record import GroupedRecord, RecordDescriptor
+
+    leaf = RecordDescriptor("c10/leaf", [("string", "s"), ("varint", "n")])
+    proc = RecordDescriptor("c10/proc", [("string", "s"), ("varint", "n"), ("record", "parent"), ("record[]", "children")])
+    host = RecordDescriptor("c10/host", [("string", "s"), ("varint", "m"), ("record[]", "procs")])
+
+    def mk_leaf():
+        return leaf(s=rng.choice(selgen.TEXTS + ["leaf1"]), n=rng.choice(selgen.INTS))
+
+    def mk_proc(depth):
+        kids = [mk_leaf() if depth == 0 else mk_proc(depth - 1) for _ in range(rng.randint(1, 3))]
+        return proc(s=rng.choice(selgen.TEXTS), n=rng.choice(selgen.INTS), parent=None, children=kids)
+
+    hosts = [host(s=rng.choice(selgen.TEXTS), m=rng.choice(selgen.INTS), procs=[mk_proc(d) for _ in range(rng.randint(1, 3))]) for d in (0, 1, 0)]
+    small = selgen._small(rng, selgen.descriptors())
+    return hosts + [GroupedRecord("c10/grouped_host", [small, hosts[1]])]
+
+
+TYPE_EXPR = ['Type.string == "leaf1"', 'Type.string == "Hello"', '"ell" in Type.string', "Type.varint > 2", "Type.varint == 7", 'Type.string != "zz"',
+             '"x" in Type.string', "Type.varint >= 100", 'Type.string in ["Hello", "x"]', 'Type.string == "inner" or Type.varint < 0',
+             'field_contains(r, Type.string, ["hello"])', "not Type.varint == 1", 'Type.string == r.s']
 
 
 EQVAL_FIELDS = {"int": "varint", "bool": "boolean", "float": "float", "text": "string"}
@@ -332,15 +394,20 @@ def ignored_sequence(seed, field):
 
 
 def shape_label(rec):
-    if str(getattr(rec._desc, "name", "")).startswith("c10/eqv_"):
+    name = str(getattr(rec._desc, "name", ""))
+    if name.startswith("c10/eqv_"):
         return "eqval"
+    if name == "c10/ws":
+        return "ws"
+    if name in ("c10/host", "c10/grouped_host"):
+        return "deepnest"
     return "flat" if getattr(rec._desc, "name", "") == "c10/flat" else selgen.shape_of(rec)
 
 
 def pool_by_shape(seed):
     rng = random.Random(seed)
     by = {}
-    for r in selgen.record_pool(rng, grouped=True) + flat_records(rng, 6) + eqval_records():
+    for r in selgen.record_pool(rng, grouped=True) + flat_records(rng, 6) + eqval_records() + ws_records() + deepnest_records(rng)[:3]:
         by.setdefault(shape_label(r), []).append(r)
     return by
 
@@ -618,6 +685,25 @@ def generate(ctx):
                         yield {"k": "filter", "adapter": adapter, "seq": subseed("c10", "interleave", adapter, pi, ei % 3), "interleave": list(pair),
                                "expr": e, "ek": "fields-helper" if exprs is FIELDS_EXPR else "list-helper"}
                     idx += 1
+    # white space at literal boundaries: the selector TEXT holds runs of blanks, TAB, NBSP, IDEOGRAPHIC SPACE, newlines raw
+    for adapter in adapters:
+        if ADAPTERS[adapter].get("plain"):
+            continue
+        for ei, e in enumerate(WS_EXPR):
+            if ctx.mine(idx):
+                yield {"k": "filter", "adapter": adapter, "seq": subseed("c10", "ws", adapter, ei % 3), "shape": "ws", "expr": e, "ek": "literal-white-space"}
+            idx += 1
+    # record[] nesting of depth >= 2 under typed-matcher selectors: through the stream / JSON readers and as purity cases
+    for ei, e in enumerate(TYPE_EXPR):
+        for adapter in ("stream", "jsonfile", "stream-concat"):
+            if ctx.mine(idx):
+                yield {"k": "filter", "adapter": adapter, "seq": subseed("c10", "deepnest", adapter, ei % 3), "shape": "deepnest", "expr": e, "ek": "typed-matcher-deep"}
+            idx += 1
+        for engine in ("interpreted", "compiled"):
+            if ctx.mine(idx):
+                yield {"k": "purity", "pool": subseed("c10", "deeppool", ei % 3), "expr": e, "engine": engine, "ek": "typed-matcher-deep",
+                       "es": subseed("c10", "deeprot", ei)}
+            idx += 1
     # equal-but-different constructor arguments (1 / True / 1.0 ...) spread over record types, file in both orders
     for adapter in ("stream", "jsonfile", "sqlite", "csvfile"):
         for order in ("forward", "backward"):
@@ -660,14 +746,14 @@ def generate(ctx):
         for j in range(3):
             yield {"k": "filter", "adapter": adapter, "seq": subseed("c10", ctx.seed, ctx.shard, "flatseq", adapter, j), "shape": "flat",
                    "es": subseed("c10", ctx.seed, ctx.shard, "flatexpr", adapter, j), "force": "data"}
-    for i in range(ctx.scale(60, 900)):
+    for i in range(ctx.scale(60, 700)):
         adapter = adapters[(i + ctx.shard) % len(adapters)]
         yield {"k": "filter", "adapter": adapter, "seq": subseed("c10", ctx.seed, ctx.shard, "seq", i),
                "es": subseed("c10", ctx.seed, ctx.shard, "expr", i)}
     for i in range(ctx.scale(1, 4)):
         yield {"k": "cold", "pool": subseed("c10", ctx.seed, ctx.shard, "coldpool", i), "es": subseed("c10", ctx.seed, ctx.shard, "cold", i),
                "n": ctx.scale(24, 60)}
-    for i in range(ctx.scale(60, 1000)):
+    for i in range(ctx.scale(60, 800)):
         yield {"k": "purity", "pool": subseed("c10", ctx.seed, ctx.shard, "pool", i // 10), "es": subseed("c10", ctx.seed, ctx.shard, "pexpr", i),
                "engine": ("interpreted", "compiled")[i % 2]}
 
